@@ -106,6 +106,11 @@ def run(ctx):
     ctx.rule("R18.l", "instance-copy model (shared with R12.p): the per-instance copy of a Selector gets its own `names` mapping and `_objects` list (every mutable slot other than the default is "
                       "copied, OrderedDicts and empty containers included), so mutating one instance's objects never changes the class's or another instance's", floor=1)
     ctx.rule("R18.f", "outside ListProxy and the objects setter, _objects grows only in Selector._ensure_value_is_in_objects, which tests membership against the current objects for every single value", floor=1)
+    ctx.rule("R18.q", "a wholesale replacement is announced: the comparator that decides whether a changes-only watcher of `objects` hears about it (Comparator.compare_iterator / "
+                      "compare_mapping, interpreted on small containers) tells a list subclass -- the ListProxy the event carries as `old` -- from a plain list of the same elements, and a "
+                      "dict from a dict subclass -- shared with R03.c", floor=1)
+    from checks.shared import comparator_model
+    comparator_model(ctx, "R18.q")
     ctx.not_decided += ["consistency after arbitrary mutation sequences (follows from per-mutator pairing but is not executed)",
                         "list mutators that ListProxy does not override (sort, reverse, __delitem__, +=) -- reported as informational"]
     cls = ctx.repo.cls(LP)
